@@ -90,9 +90,7 @@ def run_task(task):
             out["contracts_used"] = sorted(ex.contracts_used)
             out["n_obligations_total"] = len(obls)
 
-            def discharge_one(o):
-                r = solve.discharge(o, timeout_ms=task["timeout_ms"])
-                r = settle_unknown(o, r, task, solve)
+            def finish(o, r):
                 d = r.to_dict()
                 if r.status == "failed":
                     from pyvc import replay
@@ -100,6 +98,15 @@ def run_task(task):
                 d["inputs_model"] = _jsonable(d.get("inputs_model"))
                 d["model"] = _jsonable(d.get("model"))
                 return d
+
+            def discharge_one(o):
+                return finish(o, solve.discharge(o, timeout_ms=task["timeout_ms"]))
+
+            def settle_one(o):
+                # second phase: the retries with 4x / 8x budget of whatever the first attempt left undecided
+                class _Undecided:
+                    status = "unknown"
+                return finish(o, settle_unknown(o, _Undecided, task, solve))
 
             if task.get("only"):
                 obls = [o for o in obls if task["only"] in o.name]
@@ -109,6 +116,13 @@ def run_task(task):
             else:
                 # the symbolic execution is done once; the obligations are discharged by forked children (which inherit the terms)
                 out["results"] = _fan_out(obls, fan, discharge_one)
+            # the (long) retries of undecided obligations run side by side, whatever the function's fan-out: a change that turns several baseline
+            # obligations undecided must not cost minutes per obligation
+            und = [k for k, d in enumerate(out["results"]) if d["status"] == "unknown"]
+            if und:
+                redo = _fan_out([obls[k] for k in und], min(8, len(und)), settle_one) if len(und) > 1 else [settle_one(obls[und[0]])]
+                for k, d in zip(und, redo):
+                    out["results"][k] = d
         elif task["kind"] == "lemma":
             lem = reg.lemmas[task["name"]]
             from pyvc.symex import Obl
